@@ -122,6 +122,28 @@ def curated_classes():
         ('class', 'Rq', None, [('field', 'n', D), ('field', 'items', ('rep', ('str', 'x'), None, ('name', 'n'))),
                                ('requires', 'len(items)')]),
         ('class', 'Tail', None, [('field', 'n', D), ('requires', 'n')])]))
+    # an expression handed to a template as argument reads several bound names, first used in every order
+    import itertools
+    for perm in itertools.permutations(['aa', 'mm', 'zz']):
+        reads = [R(10 + i, n) for i, n in enumerate(perm)]
+        ptag = ''.join(n[0] for n in perm)
+        W = ('rule', 'W', ['p'], ('seq', [('ref', 'p'), ('opt', ('str', '!'))]))
+        out.append(('arg-reads-lets-' + ptag, [
+            ('rule', 'start', None, ('star', ('let', 'zz', T, ('let', 'aa', D, ('let', 'mm', ('opt', ('str', '-')),
+                                     ('call', 'W', [('seq', [T] + reads)])))))), W]))
+        out.append(('arg-reads-params-' + ptag, [
+            ('rule', 'start', None, ('seq', [('call', 'Outer', [('py', "'z'"), ('py', '1'), ('py', "'m'")]),
+                                             ('opt', ('call', 'Outer', [('py', "'Z'"), ('py', '2'), ('py', "'M'")]))])),
+            ('rule', 'Outer', ['zz', 'aa', 'mm'], ('call', 'W', [('seq', [T] + reads)])), W]))
+        out.append(('arg-reads-fields-' + ptag, [
+            ('rule', 'start', None, ('star', ('ref', 'Rec'))),
+            ('class', 'Rec', None, [('field', 'zz', T), ('let', 'aa', D), ('field', 'mm', ('opt', ('str', '-'))),
+                                    ('field', 'got', ('call', 'W', [('seq', [T] + reads)]))]), W]))
+    out.append(('arg-count-where', [
+        ('rule', 'start', None, ('let', 'size', D, ('let', 'mark', T, ('call', 'Wb', [
+            ('apply', ('rep', ('where', T, ('py', 'lambda t: t != mark')), ('name', 'size'), ('name', 'size')),
+             ('py', 'lambda xs: (size, mark, xs)'))])))),
+        ('rule', 'Wb', ['p'], ('right', ('str', '['), ('left', ('ref', 'p'), ('str', ']'))))]))
     out.append(('class-param', [
         ('rule', 'start', None, ('let', 'k', D, ('seq', [('call', 'Q', [('ref', 'k'), ('str', 'a')]), ('opt', ('call', 'Q', [('py', 'k + 1'), ('str', 'b')]))]))),
         ('class', 'Q', ['n', 'p'], [('field', 'items', ('rep', ('ref', 'p'), ('name', 'n'), ('name', 'n'))),
